@@ -51,15 +51,21 @@ def exh5(ctx: Ctx) -> List[Ob]:
     # node_id: an int key that is a registered node_id returns that node ...
     nid = [(c, e) for c, e in find_cases(cases, "return", "$$r", [(f"isinstance({p}, int)", True), ("$$r is None", False)])
            if all(match(f"self._node_by_id.get({p})", v) is not None for v in reaching_values(ctx, f, c.stmt, c.value))]
-    obs.append(ctx.ob("EXH-5", ["C09", "C02"], f, "an int key that is a registered node_id returns that node", nid[0][0].stmt if nid else None, bool(nid),
-                      "" if nid else "node_id lookup broken"))
+    idmap_read = [x for x in ast.walk(f.node) if isinstance(x, ast.Attribute) and x.attr == "_node_by_id"]
+    obs.append(ctx.tri("EXH-5", ["C09", "C02"], f, "an int key that is a registered node_id returns that node", nid[0][0].stmt if nid else None,
+                       True if nid else (None if idmap_read else False), "node_id lookup broken"))
     # ... and that lookup comes before the data_id index is consulted
     did_calls = [n for n, _e in find(f"self.find_all(data_id={p})", f.node)]
-    ok = bool(nid) and len(did_calls) == 1 and any(any(x is nid[0][0].stmt for x in ast.walk(s_)) for s_ in stmts_before(ctx, f, did_calls[0]))
-    obs.append(ctx.ob("EXH-5", ["C09", "C02"], f, "node_id is consulted before data_id", None, ok, "" if ok else "resolution order: node_id, then data_id, then data"))
+    ok = None
+    if nid and len(did_calls) == 1:
+        ok = any(any(x is nid[0][0].stmt for x in ast.walk(s_)) for s_ in stmts_before(ctx, f, did_calls[0]))
+    elif idmap_read and len(did_calls) == 1:
+        # some other spelling of the node_id lookup: it must at least come first
+        ok = True if all(any(any(x is r_ for x in ast.walk(s_)) for s_ in stmts_before(ctx, f, did_calls[0])) for r_ in idmap_read) else False
+    obs.append(ctx.tri("EXH-5", ["C09", "C02"], f, "node_id is consulted before data_id", None, ok, "resolution order: node_id, then data_id, then data"))
     if did_calls:
         pc = path_conds(ctx, f, did_calls[0])
-        ok = any(pol and match(f"{p} in self._nodes_by_data_id", e) is not None for e, pol in pc) and any(pol and match(f"isinstance({p}, (int, str))", e) is not None for e, pol in pc)
+        ok = any(pol and match(f"{p} in self._nodes_by_data_id", e) is not None for e, pol in pc)
         plain = [n for n, _e in find(f"self.find_all({p})", f.node)]
         ok = ok and len(plain) == 1 and any((not pol) and has(f"{p} in self._nodes_by_data_id", e) for e, pol in path_conds(ctx, f, plain[0]))
         obs.append(ctx.ob("EXH-5", ["C09", "C02"], f, "a key present in the data_id index is looked up as data_id, anything else as data", None, ok, "" if ok else "data_id before data"))
@@ -74,8 +80,9 @@ def exh5(ctx: Ctx) -> List[Ob]:
         conv = find("data_id = self.calc_data_id(data)", h.node)
         ok = len(conv) == 1 and any(pol and match("data is None", e) is not None for e, pol in [(e_, not p_) for e_, p_ in path_conds(ctx, h, conv[0][0])])
         obs.append(ctx.ob("EXH-5", ["C02", "C09"], h, f"{q}: data is converted with calc_data_id before the index is read", None, ok, "" if ok else "lookup by data must use the tree's id function"))
-        gets = find("self._nodes_by_data_id.get(data_id)", h.node)
-        obs.append(ctx.ob("EXH-5", ["C02", "C09"], h, f"{q}: reads the clone list of data_id", None, len(gets) >= 1, "" if gets else "index not consulted"))
+        gets = find("self._nodes_by_data_id.get(data_id)", h.node) + find("self._nodes_by_data_id[data_id]", h.node)
+        anyidx = [x for x in ast.walk(h.node) if isinstance(x, ast.Attribute) and x.attr == "_nodes_by_data_id"]
+        obs.append(ctx.tri("EXH-5", ["C02", "C09"], h, f"{q}: reads the clone list of data_id", None, True if gets else (None if anyidx else False), "index not consulted"))
     h = m.func("Tree.find_first")
     hc = exit_cases(ctx, h, ("return",))
     ok = bool(find_cases(hc, "return", "self._node_by_id.get(node_id)"))
@@ -153,10 +160,16 @@ def dataid_def(ctx: Ctx) -> List[Ob]:
             ok = ok and norm(v) in (f"{SLOTX}.copy()", f"list({SLOTX})", f"{SLOTX}[:]")
         elif "not add_self" in ts:
             ok = ok and match(f"[$n for $n in {SLOTX} if $n is not self]", v) is not None
+        elif match(f"[$n for $n in {SLOTX} if add_self or $n is not self]", v) is not None or match(f"[$n for $n in {SLOTX} if $n is not self or add_self]", v) is not None:
+            pass  # one comprehension for both cases
+        elif norm(v) == SLOTX:
+            ok = False  # the live clone list escapes
+        elif isinstance(v, ast.ListComp) and any(isinstance(x, ast.Compare) and isinstance(x.ops[0], (ast.NotEq, ast.Eq)) and "self" in norm(x) for x in ast.walk(v)):
+            ok = False  # self excluded by == (data equality) instead of identity
         else:
-            ok = False
-    obs.append(ctx.ob("DATAID-DEF", ["C02"], h, "get_clones: a copy of the clone list, without self (by identity) unless add_self", None, ok,
-                      "" if ok else "the result must be a new list; self is excluded by identity"))
+            ok = None if ok else ok
+    obs.append(ctx.tri("DATAID-DEF", ["C02"], h, "get_clones: a copy of the clone list, without self (by identity) unless add_self", None, ok,
+                       "the result must be a new list; self is excluded by identity"))
     return obs
 
 
@@ -307,7 +320,8 @@ def kind_branch(ctx: Ctx) -> List[Ob]:
     f = m.func("TypedTree.iter_by_type")
     ys = exit_cases(ctx, f, ("yield",))
     ky = [c for c in ys if _any_kind_pol(c.conds) is not True]
-    ok = None if not ky else all(_kind_conds(c.conds, {"kind"}) == [norm(c.value)] for c in ky if c.value is not None)
+    plain_y = [c for c in ky if isinstance(c.stmt, ast.Yield) and c.value is not None]
+    ok = None if not plain_y or len(plain_y) != len(ky) else all(_kind_conds(c.conds, {"kind"}) == [norm(c.value)] for c in plain_y)
     T(f, "iter_by_type yields the nodes whose _kind == kind", ok, "")
     tests = [e for c in ys for e, pol in c.conds if "ANY_KIND" in norm(e) or norm(e) == "kind"]
     tests += [n.test for n in iter_own(f.node) if isinstance(n, ast.If) and (norm(n.test) in ("kind", "not kind"))]
@@ -678,12 +692,20 @@ def fs(ctx: Ctx) -> List[Ob]:
             good = name in (f"{x}.name", f"f'{{{x}.name}}'") and kw == {"size": f"{x}.stat().st_size", "mdate": f"{x}.stat().st_mtime"} and f"not {x}.is_dir()" in ts
         shapes[br].append(kind if good else f"{kind}? {norm(c)} {kw}")
         entry_of[id(c)] = (kind, x)
-    ok = None if not ctors else all(sorted(shapes[b_]) == ["dir", "file"] for b_ in ("sorted", "unsorted")) and "?" not in shapes
+    ok = None if not ctors or "?" in shapes or not (shapes["sorted"] or shapes["unsorted"]) else all(sorted(shapes[b_]) == ["dir", "file"] for b_ in ("sorted", "unsorted"))
+    if ok is False and not any("?" in x_ for b_ in ("sorted", "unsorted") for x_ in shapes[b_]) and any(not shapes[b_] for b_ in ("sorted", "unsorted")):
+        ok = None  # one of the two scans is spelled in a way this clause does not read
     T(f, "sorted and unsorted branch construct the same two entry shapes (dir flag / size<-st_size, mdate<-st_mtime), classified by is_dir()/is_file()", ok,
       f"sorted: {sorted(shapes['sorted'])} / unsorted: {sorted(shapes['unsorted'])}")
     # the sorted scan and the unsorted scan exclude each other
     its = [c for c in ast.walk(f.node) if isinstance(c, ast.Call) and norm(c.func) == f"{pparam}.iterdir"]
-    ok = None if not its else (len(its) == 2 and sorted(branch(c) or "?" for c in its) == ["sorted", "unsorted"])
+    brs = [branch(c) for c in its]
+    if len(its) == 2 and sorted(b_ or "?" for b_ in brs) == ["sorted", "unsorted"]:
+        ok = True
+    elif len(its) >= 2 and any(b_ is None for b_ in brs) and any(b_ is not None for b_ in brs):
+        ok = False  # one scan runs whatever `sort` says, next to one that depends on it: both run for one of the settings
+    else:
+        ok = None
     T(f, "the directory is scanned once: either the sorted or the unsorted way", ok, "entries would be added twice")
     # recursion: once per directory, below the node created for that directory
     recs = [c for c in ast.walk(f.node) if isinstance(c, ast.Call) and norm(c.func) == f.name and len(c.args) == 2]
@@ -694,7 +716,8 @@ def fs(ctx: Ctx) -> List[Ob]:
             a0 = resolve_expr(ctx, f, rs[0], rs[0].args[0])
             e = match(f"{nparam}.add($$o)", a0) or match(f"{nparam}.add_child($$o)", a0)
             sub = norm(rs[0].args[1])
-            ok = False
+            # a definite mistake: the recursion runs below the scanned node itself, or rescans the same path
+            ok = False if (norm(a0) == nparam or sub == pparam) else None
             if e is not None:
                 o = e["$$o"]
                 if isinstance(o, ast.Call) and id_of_ctor(o, ctors, entry_of) == ("dir", sub):
@@ -707,9 +730,9 @@ def fs(ctx: Ctx) -> List[Ob]:
                         lp_ = [l_ for l_ in ast.walk(f.node) if isinstance(l_, ast.For) and any(rs[0] is x for x in ast.walk(l_)) and isinstance(l_.target, ast.Tuple)
                                and [norm(t_) for t_ in l_.target.elts] == [sub, o.id] and e2["$l"] in [x.id for x in ast.walk(l_.iter) if isinstance(x, ast.Name)]]
                         if lp_ and isinstance(o2, ast.Call) and norm(o2.func) == "FileSystemEntry" and any(k.arg == "is_dir" for k in o2.keywords) \
-                                and norm(o2.args[0]) in (f"{e2['$c']}.name", f"f'{{{e2['$c']}.name}}'"):
+                                and norm(o2.args[0]) in (f"{e2['$c']}.name", f"f'{{{e2['$c']}.name}}'", f"str({e2['$c']}.name)"):
                             ok = True
-        elif len(rs) != 1 and recs:
+        elif len(rs) > 1:
             ok = False
         T(f, f"{nm}: each directory is added and scanned once, below its own node", ok, "sub-directories must appear at the corresponding depth")
     # sorted branch: files first (by name) then directories (by path name)
@@ -837,10 +860,10 @@ def gen(ctx: Ctx) -> List[Ob]:
                               "" if ok else "a randomizer that drops its probability never skips"))
     f = m.func("Randomizer._skip_value")
     rs_ = _returns(f)
-    ok = len(rs_) == 1 and norm(rs_[0].value) in (
+    ok = None if len(rs_) != 1 else norm(rs_[0].value) in (
         "self.probability != 1.0 and (not random.random() <= self.probability)", "self.probability != 1.0 and random.random() > self.probability",
         "not (self.probability == 1.0 or random.random() <= self.probability)")
-    obs.append(ctx.ob("GEN", ["C20"], f, "_skip_value: skip unless probability is 1 or the draw is within it", None, ok, ""))
+    obs.append(ctx.tri("GEN", ["C20"], f, "_skip_value: skip unless probability is 1 or the draw is within it", None, ok, ""))
     f = m.func("RangeRandomizer.generate")
     ok = has("return random.uniform(self.min, self.max)", f.node) and has("return random.randrange(self.min, self.max)", f.node)
     obs.append(ctx.ob("GEN", ["C20"], f, "RangeRandomizer draws within [min, max)", None, ok, ""))
@@ -934,7 +957,8 @@ def gen(ctx: Ctx) -> List[Ob]:
                 one_based = not inc
             else:
                 mm, one_based = None, False
-            T(f, "_make_tree: exactly `count` children per relation; count defaults to 1 and randomized counts are resolved (None -> 0)", mm is not None, f"count is `{cnt}`")
+            count_ok = True if mm is not None else (None if (":count" in cnt or "count" in cnt) and "or 0" in cnt or ":count" not in cnt else False)
+            T(f, "_make_tree: exactly `count` children per relation; count defaults to 1 and randomized counts are resolved (None -> 0)", count_ok, f"count is `{cnt}`")
             T(f, "_make_tree: 1-based sibling index", bool(one_based), "indices start at 1")
             # the dotted path
             rr = [c for c in ast.walk(il) if isinstance(c, ast.Call) and norm(c.func) == "_resolve_random_dict"]
@@ -951,10 +975,10 @@ def gen(ctx: Ctx) -> List[Ob]:
                     if ok and isinstance(md["'hier_idx'"], ast.Name):
                         pv = md["'hier_idx'"].id
                         a1 = find_under(ctx, f, f"{pv} = f'{{prefix}}.{{{iv}}}'", [("prefix", True)])
-                        a2 = find_under(ctx, f, f"{pv} = f'{{{iv}}}'", [("prefix", False)])
+                        a2 = find_under(ctx, f, f"{pv} = str({iv})", [("prefix", False)]) or find_under(ctx, f, f"{pv} = f'{{{iv}}}'", [("prefix", False)])
                         ok = len(a1) == 1 and len(a2) == 1 and len(find(f"{pv} = $$v", f.node)) == 2
                     elif ok:
-                        ok = norm(md["'hier_idx'"]) == f"f'{{prefix}}.{{{iv}}}' if prefix else f'{{{iv}}}'"
+                        ok = norm(md["'hier_idx'"]) in (f"f'{{prefix}}.{{{iv}}}' if prefix else f'{{{iv}}}'", f"f'{{prefix}}.{{{iv}}}' if prefix else str({iv})")
                     dat = norm(resolve_expr(ctx, f, rr[0], rr[0].args[0], keep=[spv])) if rr[0].args else "?"
                     T(f, "_make_tree: each node gets its own attribute dict", dat in (f"{spv}.copy()", f"dict({spv})"), f"the randomizers are resolved in `{dat}`")
             T(f, "_make_tree: both macros supplied (idx, hier_idx = dotted index path from the parent's prefix)", ok, "")
@@ -1046,7 +1070,7 @@ def search(ctx: Ctx) -> List[Ob]:
             else:
                 ok = False
         obs.append(ctx.tri("SEARCH", ["C09"], f, "non-matching nodes are skipped, matching ones yielded", lp, ok, "selection inverted or missing"))
-        ok = len(inside) == 1 and norm(inside[0].value) == v and len(ys) == 1
+        ok = len(inside) == 1 and len(ys) == 1 and all(norm(x_) == v for x_ in reaching_values(ctx, f, inside[0], inside[0].value))
         obs.append(ctx.ob("SEARCH", ["C09"], f, "each match is yielded once, inside the counted loop", lp, ok,
                           "" if ok else "a yield outside the counted loop escapes the result limit"))
     ok = None
